@@ -242,9 +242,14 @@ func init() {
 				return Val{T: rt, L: err.L}
 			}
 		}
-		// dynamically typed value: unspecified bytes
+		// dynamically typed value: as many bytes as the dynamic type is wide (fixed-size scalars), unspecified
+		// content here; other dynamic types: an unspecified number of bytes or an error
 		n := vc.freshConst("bw_n", sBV64)
 		vc.assume(st.cond, and(app("bvsle", bvLit(64, 0), n), app("bvslt", n, bvLit(64, 1<<16))))
+		if len(args[2].L) == 2 {
+			sz := vc.binSizeTerm(args[2].L[0])
+			vc.assume(st.cond, imp(and(okv, app("bvugt", sz, bvLit(64, 0))), eq(n, sz)))
+		}
 		pos := vc.define("wp", sBV64, vc.getWpos(st, key))
 		vc.assume(st.cond, and(app("bvsle", bvLit(64, 0), pos), app("bvslt", pos, bvLit(64, 1<<40))))
 		hn, hs, h := vc.outRow(st, key)
@@ -252,6 +257,18 @@ func init() {
 		na := vc.freshConst("wra", arrSort(sBV64, sBV8))
 		q := vc.fresh("i")
 		vc.assume("true", fmt.Sprintf("(forall ((%s %s)) (! (=> (bvslt %s %s) (= (select %s %s) (select %s %s))) :pattern ((select %s %s))))", q, sBV64, q, pos, na, q, old, q, na, q))
+		if len(args[2].L) == 2 {
+			// a boxed []byte goes out as it is
+			bt := types.NewSlice(types.Universe.Lookup("byte").Type())
+			isBytes := eq(args[2].L[0], bvLit(64, uint64(vc.w.tags.tag(bt))))
+			sl := vc.unbox(st, args[2], bt)
+			vc.assume(st.cond, imp(and(okv, isBytes), eq(n, sl.L[2])))
+			ehn := elemHeapName(elemKey(bt.Elem()), "")
+			row := sel(vc.heapTerm(st, ehn, arrSort(sBV64, arrSort(sBV64, sBV8))), sl.L[0])
+			q2 := vc.fresh("i")
+			vc.assume(st.cond, imp(and(okv, isBytes), fmt.Sprintf("(forall ((%s %s)) (! (=> (and (bvsle %s %s) (bvslt %s %s)) (= (select %s (bvadd %s %s)) (select %s (bvadd %s %s)))) :pattern ((select %s (bvadd %s %s)))))",
+				q2, sBV64, bvLit(64, 0), q2, q2, sl.L[2], na, pos, q2, row, sl.L[1], q2, na, pos, q2)))
+		}
 		vc.setHeap(st, hn, hs, sto(h, key, na))
 		vc.setGhost(st, "wpos", key, sBV64, app("bvadd", pos, n))
 		vc.dirty[hn] = true
@@ -264,4 +281,52 @@ func init() {
 		vc.trusted["unicode/utf8.Valid: total and side-effect free; which byte sequences it accepts is not specified"] = true
 		return Val{T: rt, L: []string{vc.freshConst("utf8ok", sBool)}}
 	}
+}
+
+// Sizes of dynamically typed values handed to binary.Write.  Real type tags get
+// ground facts (BinSizeT: width/8 for fixed-size integer, float and bool types,
+// 0 = not a fixed-size scalar); the elements of a slice held by a message field
+// carry a synthetic tag that encodes their class and width.
+const synthTagBase = 0x40000000
+
+func synthElemTag(ecls, ewid string) string {
+	return app("bvor", bvLit(64, synthTagBase), app("bvshl", app("bvand", ecls, bvLit(64, 0xFF)), bvLit(64, 16)), app("bvand", ewid, bvLit(64, 0xFFFF)))
+}
+
+func (vc *VC) binSizeTerm(tag string) string {
+	if !vc.declared["BinSizeT"] {
+		vc.declareFun("BinSizeT", []string{sBV64}, sBV64)
+		seen := map[int]bool{}
+		emit := func(t types.Type) {
+			id := vc.w.tags.tag(t)
+			if seen[id] {
+				return
+			}
+			seen[id] = true
+			sz := 0
+			if b, ok := t.Underlying().(*types.Basic); ok && b.Info()&(types.IsInteger|types.IsFloat|types.IsBoolean) != 0 {
+				switch b.Kind() {
+				case types.Bool, types.Int8, types.Uint8:
+					sz = 1
+				case types.Int16, types.Uint16:
+					sz = 2
+				case types.Int32, types.Uint32, types.Float32:
+					sz = 4
+				case types.Int64, types.Uint64, types.Float64:
+					sz = 8
+				}
+			}
+			vc.prelude = append(vc.prelude, fmt.Sprintf("(assert (= (BinSizeT %s) %s))", bvLit(64, uint64(id)), bvLit(64, uint64(sz))))
+		}
+		for _, k := range vc.w.profileMsgNums() {
+			for _, f := range vc.w.profile().Msgs[k].Fields {
+				emit(f.T)
+			}
+		}
+		for _, bk := range []types.BasicKind{types.Bool, types.Int8, types.Uint8, types.Int16, types.Uint16, types.Int32, types.Uint32, types.Int64, types.Uint64, types.Float32, types.Float64} {
+			emit(types.Typ[bk])
+		}
+	}
+	synth := app("bvuge", tag, bvLit(64, synthTagBase))
+	return ite(synth, app("bvlshr", app("bvand", tag, bvLit(64, 0xFFFF)), bvLit(64, 3)), app("BinSizeT", tag))
 }
